@@ -8,9 +8,10 @@ COQ_HEADER = "From Plotink Require Import Base.Prelude Corr.C17.\nOpen Scope Z_s
 COQ_RUN = "run17"
 COQ_CASE_TYPE = "case17"
 RULE = ("firmware-valid (T, rate, accel, jerk): vertex of the rate parabola at 1, 1.5, T-1.5 and one step either side, strictly inside, outside the move, "
-        "zero jerk, T in {1,2,3,large}; non-trivial = jerk != 0 and T >= 3")
+        "zero jerk, T in {1,2,3,large}; plus moves that leave the 2^31-1 range at the first tick, the last tick or an interior extremum, and moves 0/1/2 units off the limit "
+        "(|values| < 2^36); non-trivial = jerk != 0 and T >= 3")
 TRUSTED = ["Python float quotient (jerk/2 - accel)/jerk classifies against 1.5 / T-1.5 and rounds up like the rational one on the domain (sampled, not proved)"]
-ASSUMPTIONS = ["per-tick |rate| and |accel| <= 2^31-1 for ticks 1..T, 1 <= T < 2^32"]
+ASSUMPTIONS = ["firmware-valid families: per-tick |rate| and |accel| <= 2^31-1 for ticks 1..T, 1 <= T < 2^32; limit families: |rate|, |accel| < 2^36, T <= 20000 (floats exact)"]
 
 def generate(rng, tier):
     n = 2500 if tier == "quick" else 60000
@@ -18,6 +19,28 @@ def generate(rng, tier):
     for _ in range(n):
         T, rate, accel, jerk, fam = ebbgen.gen_t3(rng)
         cases.append({"T": T, "rate": rate, "accel": accel, "jerk": jerk, "family": fam})
+    # moves that leave the 2^31-1 range (the reason the helper exists: its report is compared with the limit): the rate passes the
+    # limit at the first tick, at the last tick, or at an interior extremum; magnitudes kept below 2^36 so that the float
+    # arithmetic of rate_t3 stays exact
+    M = ebbgen.M
+    for _ in range(n // 8):
+        T = rng.choice([1, 2, 3, rng.randint(4, 400), rng.randint(401, 20000)])
+        where = rng.choice(["start", "end", "interior", "just-over", "just-under"])
+        jerk = rng.choice([0, rng.randint(-2000, 2000), rng.randint(-50, 50)]) if T < 400 else rng.choice([0, rng.randint(-20, 20)])
+        over = rng.choice([1, 2, 1000, rng.randint(1, M)])
+        sg = rng.choice([1, -1])
+        if where == "start":
+            accel = -sg * rng.randint(0, 10**6); re_v = sg * (M + over) - accel
+        elif where == "end":
+            accel = sg * rng.randint(0, (M + over) // max(1, T)); re_v = sg * (M + over) - accel * T - jerk * T * (T - 1) // 2
+        elif where == "interior" and jerk != 0 and T >= 5:
+            k = rng.randint(2, T - 1); accel = -jerk * k + rng.choice([0, jerk // 2]); re_v = -sg * abs(jerk) // jerk * (M + over) - accel * k - jerk * k * (k - 1) // 2
+        else:
+            accel = rng.randint(-1000, 1000); d = 0 if where == "just-under" else rng.choice([1, 2])
+            re_v = sg * (M + d) - accel
+        rate = re_v + ebbgen.tq(accel, 2) - ebbgen.tq(jerk, 6)
+        if abs(rate) < 2**36 and abs(accel) < 2**36:
+            cases.append({"T": T, "rate": rate, "accel": accel, "jerk": jerk, "family": "limit/" + where})
     return cases
 
 def run_impl(c):
@@ -35,5 +58,5 @@ def shrink(c):
         v = c[key]
         for nv in (v // 2, v - 1 if v > 0 else v + 1, 1 if key == "T" else 0):
             d = dict(c); d[key] = nv
-            if nv != v and ebbgen.t3_in_domain(d["T"], d["rate"], d["accel"], d["jerk"]):
+            if nv != v and d["T"] >= 1 and (ebbgen.t3_in_domain(d["T"], d["rate"], d["accel"], d["jerk"]) or c["family"].startswith("limit/")):
                 yield d
